@@ -70,8 +70,10 @@ func (c *sorterClass_[V]) DefaultRanker() RankingFunction[V] {
 // Constructors
 
 func (c *sorterClass_[V]) Make() SorterLike[V] {
+	// NOTE: Each sorter ranks with a collator of its own, the collator behind
+	// the default ranker of the class keeps state while it ranks.
 	return &sorter_[V]{
-		ranker_: c.defaultRanker_,
+		ranker_: Collator[V]().Make().RankValues,
 	}
 }
 
